@@ -19,25 +19,38 @@
 (* independent in the code.  Dims restricts the PIT switches of a          *)
 (* heterogeneous configuration (objects and calls of the other switches    *)
 (* are left out), HOpts the option names of a heterogeneous configuration. *)
+(* Forking = TRUE adds the action Fork: the model is COPIED (copy.deepcopy *)
+(* / pickle round trip) at any point of the history; afterwards every call *)
+(* is addressed to the original (object 1) or to the copy (object 2) and   *)
+(* the two must behave as two independent instances of the machine started *)
+(* from the state at the fork; every invariant and action property is      *)
+(* evaluated on both objects.                                              *)
 (* Every configuration is explored to closure and EVERY edge of the dumped *)
 (* graph is executed on a real model by harness/checks/c11.py.             *)
 (*                                                                         *)
 (* Actions carry their arguments (they appear in the edge labels of the    *)
-(* dump): Train(g), SetFlag(f, v), LFlag(l, f, v), Upd(o, v),              *)
-(* LUpd(b, o, v), Sel(v), LSel(b, v), FwdBwd.                              *)
+(* dump); the first argument is the object addressed: Train(i, g),         *)
+(* SetFlag(i, f, v), LFlag(i, l, f, v), Upd(i, o, v), LUpd(i, b, o, v),    *)
+(* Sel(i, v), LSel(i, b, v), FwdBwd(i), Fork.                              *)
 (***************************************************************************)
 EXTENDS NasControl, TLC
 
-CONSTANTS Impl,     \* "fixed" | "pinned" | "bcast1"
+CONSTANTS Impl,     \* "fixed" | "pinned" | "bcast1" | "idcache"
           Kind,     \* "pit" | "mps" | "sn"
           Temps,    \* temperatures x 1000 (contains 1000, the initial one)
           Hetero,   \* BOOLEAN
           Part,     \* "all" | "ctl" | "opt"
-          Dims,     \* subset of PitFlags (heterogeneous PIT)
-          HOpts     \* subset of {"temp","hard","gumbel","disable"} (heterogeneous MPS / SuperNet)
+          Dims,     \* subset of PitFlags: the PIT switches of this configuration
+          HOpts,    \* subset of {"temp","hard","gumbel","disable"}: the option names of this configuration
+          Forking   \* BOOLEAN: Fork enabled
 
-VARIABLES rg, flags, opt
-vars == <<rg, flags, opt>>
+\* objs = sequence of object states [rg, flags, opt, cache]: <<original>> before Fork, <<original, copy>> after.
+\* cache (moves under Impl = "idcache" only, else 0): 0 = no train_* (hence no net_parameters()) ran on this object
+\* or on the object it was copied from, else the object (1 / 2) on which the first one ran, i.e. whose parameter
+\* identities the identity-keyed cache holds.
+VARIABLES objs
+vars == <<objs>>
+Restricted == Hetero \/ Forking
 
 (***************************************************************************)
 (* Objects: [n = name, c = class, l = owning layers, q = owning block]     *)
@@ -70,15 +83,18 @@ NoFlags == [f \in PitFlags |-> TRUE]
 OptRec(t, h, g, d) == [temp |-> t, hard |-> h, gumbel |-> g, disable |-> d, sampler |-> Sampler(g, d)]
 Opts == [temp : Temps, hard : BOOLEAN, gumbel : BOOLEAN, disable : BOOLEAN, sampler : {"sm", "gs", "none"}]
 
-TypeOK == /\ rg \in [Names -> BOOLEAN]
-          /\ flags \in [PitFlags -> BOOLEAN]
-          /\ opt \in [Blocks -> Opts]
+TypeOK == /\ Len(objs) \in {1, 2}
+          /\ \A i \in DOMAIN objs :
+                /\ objs[i].rg \in [Names -> BOOLEAN]
+                /\ objs[i].flags \in [PitFlags -> BOOLEAN]
+                /\ objs[i].opt \in [Blocks -> Opts]
+                /\ objs[i].cache \in {0, 1, 2}
 
 Ctl  == Part \in {"all", "ctl"}
 Optn == Part \in {"all", "opt"}
 OptNames == (IF Kind = "mps" THEN {"temp", "hard", "gumbel", "disable"}
              ELSE IF Kind = "sn" THEN {"temp", "hard"} ELSE {})
-            \cap (IF Hetero THEN HOpts ELSE {"temp", "hard", "gumbel", "disable"})
+            \cap HOpts
 OptVals(o) == IF o = "temp" THEN Temps ELSE {0, 1}
 
 (***************************************************************************)
@@ -90,31 +106,36 @@ InitRg(f0) == [n \in Names |-> LET c == O(n).c IN
                  IF Frozen(c) THEN FALSE
                  ELSE IF c = "dc" THEN f0["dc"]
                  ELSE IF c \in PitFreeCls THEN f0[FlagOf(c)] ELSE TRUE]
-Init ==
-    IF Kind = "pit" THEN
-        /\ \E f0 \in [PitFlags -> BOOLEAN] :        \* PIT(train_features=, train_rf=, train_dilation=, discrete_cost=)
-              /\ (Hetero => \A f \in PitFlags \ Dims : f0[f])
-              /\ flags = (IF Hetero THEN NoFlags ELSE f0)   \* getter memory is tracked in the class-level machine only
-              /\ rg = InitRg(f0)
-        /\ opt = [k \in Blocks |-> OptRec(1000, FALSE, FALSE, FALSE)]
-    ELSE IF Kind = "mps" THEN
-        /\ flags = NoFlags
-        /\ rg = [n \in Names |-> TRUE]
-        /\ \E h \in BOOLEAN :                       \* MPS(hard_softmax=, gumbel_softmax=, disable_sampling=): one value per model
-           \E g \in (IF Hetero /\ "gumbel" \notin HOpts THEN {FALSE} ELSE BOOLEAN) :
-           \E d \in (IF Hetero /\ "disable" \notin HOpts THEN {FALSE} ELSE BOOLEAN) :
-              opt = [k \in Blocks |-> OptRec(1000, h, g, d)]
-    ELSE
-        /\ flags = NoFlags
-        /\ rg = [n \in Names |-> TRUE]             \* SuperNet.__init__ sets train_selection = True
-        /\ \E hs, gs \in [Blocks -> BOOLEAN] :      \* SuperNetModule(gumbel_softmax=, hard_softmax=) PER BLOCK
-              /\ (Hetero /\ Part = "ctl" => \A k \in Blocks : ~hs[k] /\ ~gs[k])   \* options play no role there
-              /\ opt = [k \in Blocks |-> OptRec(1000, hs[k], gs[k], FALSE)]
+ObjState(r, f, o) == [rg |-> r, flags |-> f, opt |-> o, cache |-> 0]
+\* constructor booleans that vary in this configuration
+HB(o) == IF Restricted /\ o \notin HOpts THEN {FALSE} ELSE BOOLEAN
+AllTrue == [n \in Names |-> TRUE]
+InitSet ==
+    IF Kind = "pit" THEN        \* PIT(train_features=, train_rf=, train_dilation=, discrete_cost=)
+        {ObjState(InitRg(f0), IF Hetero THEN NoFlags ELSE f0,     \* getter memory: class-level machine only
+                  [k \in Blocks |-> OptRec(1000, FALSE, FALSE, FALSE)]) :
+            f0 \in {f \in [PitFlags -> BOOLEAN] : Restricted => \A x \in PitFlags \ Dims : f[x]}}
+    ELSE IF Kind = "mps" THEN   \* MPS(hard_softmax=, gumbel_softmax=, disable_sampling=): one value per model
+        {ObjState(AllTrue, NoFlags, [k \in Blocks |-> OptRec(1000, h, g, d)]) :
+            h \in HB("hard"), g \in HB("gumbel"), d \in HB("disable")}
+    ELSE                        \* SuperNetModule(gumbel_softmax=, hard_softmax=) PER BLOCK; train_selection = True
+        {ObjState(AllTrue, NoFlags, [k \in Blocks |-> OptRec(1000, hs[k], gs[k], FALSE)]) :
+            hs \in [Blocks -> IF Hetero /\ Part = "ctl" THEN {FALSE} ELSE HB("hard")],
+            gs \in [Blocks -> IF Hetero /\ Part = "ctl" THEN {FALSE} ELSE BOOLEAN]}
+Init == \E s \in InitSet : objs = <<s>>
 
-Step(a) ==
-    /\ rg'    = [n \in Names |-> NextRg(Impl, O(n).c, Group(O(n).c), O(n).l, O(n).q, rg[n], a)]
-    /\ flags' = IF Hetero THEN flags ELSE NextFlags(flags, a)
-    /\ opt'   = [k \in Blocks |-> NextOptOf(Impl, Kind, opt, k, a)]
+\* object state s of object i after call a
+StepObj(s, i, a) ==
+    LET stale == Impl = "idcache" /\ a.a = "train" /\ s.cache \notin {0, i}
+    IN  [rg    |-> [n \in Names |-> IF stale THEN StaleTrainRg(O(n).c, s.rg[n], a)
+                                    ELSE NextRg(Impl, O(n).c, Group(O(n).c), O(n).l, O(n).q, s.rg[n], a)],
+         flags |-> IF Hetero THEN s.flags ELSE NextFlags(s.flags, a),
+         opt   |-> [k \in Blocks |-> NextOptOf(Impl, Kind, s.opt, k, a)],
+         cache |-> IF Impl = "idcache" /\ a.a = "train" /\ s.cache = 0 THEN i ELSE s.cache]
+\* a call addressed to object i: the other object is not touched
+Step(i, a) == i \in DOMAIN objs /\ objs' = [objs EXCEPT ![i] = StepObj(objs[i], i, a)]
+\* copy.deepcopy(model) / pickle round trip: the copy starts from the state of the original
+Fork == Forking /\ Len(objs) = 1 /\ objs' = <<objs[1], objs[1]>>
 
 UpdArg(o, v) == [a |-> "upd",
                  temp    |-> IF o = "temp" THEN v ELSE NoT,
@@ -127,28 +148,30 @@ LUpdArg(b, o, v) == [a |-> "lupd", b |-> b,
                      gumbel  |-> IF o = "gumbel" THEN v ELSE NoB,
                      disable |-> IF o = "disable" THEN v ELSE NoB]
 
-Train(g)       == Ctl /\ Step([a |-> "train", g |-> g])
-SetFlag(f, v)  == Kind = "pit" /\ Ctl /\ (Hetero => f \in Dims) /\ Step([a |-> "flag", f |-> f, v |-> v])
-LFlag(l, f, v) == /\ Kind = "pit" /\ Hetero /\ Ctl /\ f \in Dims
-                  /\ \E o \in Objs : l \in o.l /\ DimOf(o.c) = f
-                  /\ Step([a |-> "lflag", l |-> l, f |-> f, v |-> v])
-Upd(o, v)      == Optn /\ o \in OptNames /\ v \in OptVals(o) /\ Step(UpdArg(o, v))
-LUpd(b, o, v)  == /\ Optn /\ b \in LBlocks /\ o \in OptNames /\ v \in OptVals(o)
-                  /\ Step(LUpdArg(b, o, v))
-Sel(v)         == Kind = "sn" /\ Ctl /\ Step([a |-> "sel", v |-> v])
-LSel(b, v)     == Kind = "sn" /\ Hetero /\ Ctl /\ b \in LBlocks /\ Step([a |-> "lsel", b |-> b, v |-> v])
+Train(i, g)       == Ctl /\ Step(i, [a |-> "train", g |-> g])
+SetFlag(i, f, v)  == Kind = "pit" /\ Ctl /\ f \in Dims /\ Step(i, [a |-> "flag", f |-> f, v |-> v])
+LFlag(i, l, f, v) == /\ Kind = "pit" /\ Hetero /\ Ctl /\ f \in Dims
+                     /\ \E o \in Objs : l \in o.l /\ DimOf(o.c) = f
+                     /\ Step(i, [a |-> "lflag", l |-> l, f |-> f, v |-> v])
+Upd(i, o, v)      == Optn /\ o \in OptNames /\ v \in OptVals(o) /\ Step(i, UpdArg(o, v))
+LUpd(i, b, o, v)  == /\ Optn /\ b \in LBlocks /\ o \in OptNames /\ v \in OptVals(o)
+                     /\ Step(i, LUpdArg(b, o, v))
+Sel(i, v)         == Kind = "sn" /\ Ctl /\ Step(i, [a |-> "sel", v |-> v])
+LSel(i, b, v)     == Kind = "sn" /\ Hetero /\ Ctl /\ b \in LBlocks /\ Step(i, [a |-> "lsel", b |-> b, v |-> v])
 \* forward + backward of loss + cost: no control state changes (left out of the pure option machines)
-FwdBwd         == ~(Hetero /\ Part = "opt") /\ Step([a |-> "fwdbwd"])
+FwdBwd(i)         == ~(Hetero /\ Part = "opt") /\ Step(i, [a |-> "fwdbwd"])
 
 AllOpt == {"temp", "hard", "gumbel", "disable"}
-Next == \/ \E g \in TrainGroups : Train(g)
-        \/ \E f \in PitFlags, v \in BOOLEAN : SetFlag(f, v)
-        \/ \E l \in Layers, f \in PitFlags, v \in BOOLEAN : LFlag(l, f, v)
-        \/ \E o \in AllOpt : \E v \in OptVals(o) : Upd(o, v)
-        \/ \E b \in Blocks, o \in AllOpt : \E v \in OptVals(o) : LUpd(b, o, v)
-        \/ \E v \in BOOLEAN : Sel(v)
-        \/ \E b \in Blocks, v \in BOOLEAN : LSel(b, v)
-        \/ FwdBwd
+Ids == {1, 2}
+Next == \/ \E i \in Ids, g \in TrainGroups : Train(i, g)
+        \/ \E i \in Ids, f \in PitFlags, v \in BOOLEAN : SetFlag(i, f, v)
+        \/ \E i \in Ids, l \in Layers, f \in PitFlags, v \in BOOLEAN : LFlag(i, l, f, v)
+        \/ \E i \in Ids, o \in AllOpt : \E v \in OptVals(o) : Upd(i, o, v)
+        \/ \E i \in Ids, b \in Blocks, o \in AllOpt : \E v \in OptVals(o) : LUpd(i, b, o, v)
+        \/ \E i \in Ids, v \in BOOLEAN : Sel(i, v)
+        \/ \E i \in Ids, b \in Blocks, v \in BOOLEAN : LSel(i, b, v)
+        \/ \E i \in Ids : FwdBwd(i)
+        \/ Fork
 
 Spec == Init /\ [][Next]_vars
 
@@ -156,13 +179,15 @@ Spec == Init /\ [][Next]_vars
 (* State invariants                                                        *)
 (***************************************************************************)
 BlockOf(n) == IF O(n).q # 0 THEN O(n).q ELSE 1
-\* masks frozen by construction never become trainable ...
-FrozenNeverTrainable == \A n \in Names : Frozen(O(n).c) => ~rg[n]
+Live == DOMAIN objs
+\* masks frozen by construction never become trainable (in the original and in the copy) ...
+FrozenNeverTrainable == \A i \in Live : \A n \in Names : Frozen(O(n).c) => ~objs[i].rg[n]
 \* ... and never receive a gradient from the loss or the cost (in any state, i.e. whenever FwdBwd is run)
-FrozenNeverGrad == \A n \in Names : Frozen(O(n).c) =>
-                      ~GradExpected(O(n).c, rg[n], opt[BlockOf(n)].sampler, opt[BlockOf(n)].hard)
+FrozenNeverGrad == \A i \in Live : \A n \in Names : Frozen(O(n).c) =>
+                      ~GradExpected(O(n).c, objs[i].rg[n], objs[i].opt[BlockOf(n)].sampler, objs[i].opt[BlockOf(n)].hard)
 \* the sampler that runs is the one the options (as the user set them) select, in every block
-SamplerConsistent == \A k \in Blocks : opt[k].sampler = Sampler(opt[k].gumbel, opt[k].disable)
+SamplerConsistent == \A i \in Live : \A k \in Blocks :
+                        objs[i].opt[k].sampler = Sampler(objs[i].opt[k].gumbel, objs[i].opt[k].disable)
 
 (***************************************************************************)
 (* Reporting structure of the abstract model: nas/net lists partition the  *)
@@ -178,8 +203,14 @@ AllParams ==
     ELSE IF Kind = "mps" THEN <<"w0", "qo0", "clip0", "qwS", "qin", "w1", "w2", "qo2", "clip2", "qw2", "w3", "qdummy", "qw3">>
     ELSE <<"w0", "sn1", "w1", "sn2", "w2">>
 NasReport == Report(NasLists)
-NetReport == SelectSeq(AllParams, LAMBDA x : x \notin Range(NasReport))
-Partition == IsPartition(AllParams, NasReport, NetReport)
+\* named_net_parameters(): everything that is not among the NAS parameters, recomputed at every call
+NamedNetReport == SelectSeq(AllParams, LAMBDA x : x \notin Range(NasReport))
+\* net_parameters() of object i (Impl = "idcache": filtered by the identities cached by object s.cache;
+\* on another object none of its parameters has one of those identities)
+NetReportOf(s, i) == IF Impl = "idcache" /\ s.cache \notin {0, i} THEN AllParams ELSE NamedNetReport
+Partition == \A i \in Live : IsPartition(AllParams, NasReport, NetReportOf(objs[i], i))
+\* the unnamed iterators report what the named ones report
+IteratorsAgree == \A i \in Live : NetReportOf(objs[i], i) = NamedNetReport
 \* non-vacuity of Partition: without the "already yielded" filter the shared objects are reported twice
 RECURSIVE Concat(_, _)
 Concat(lists, i) == IF i > Len(lists) THEN <<>> ELSE lists[i] \o Concat(lists, i + 1)
@@ -188,58 +219,79 @@ NoDedupIsNotPartition == Kind \in {"pit", "mps"} => ~NoDup(Concat(NasLists, 1))
 (***************************************************************************)
 (* Action properties (post-conditions and frame conditions of the calls)   *)
 (***************************************************************************)
+OthersSame(i) == \A j \in DOMAIN objs \ {i} : objs'[j] = objs[j]      \* the two objects are independent
+Pre(i)  == objs[i]
+Post(i) == objs'[i]
+
 \* train_* make exactly the named group trainable (frozen masks excepted: they stay as they are);
-\* no discrete_cost switch, flag or option moves
+\* no discrete_cost switch, flag or option moves; the other object is not touched
 TrainExact ==
-    [][\A g \in TrainGroups : Train(g) =>
-          /\ \A n \in Names : (~Frozen(O(n).c) /\ O(n).c # "dc") => rg'[n] = Want(g, Group(O(n).c))
-          /\ \A n \in Names : O(n).c = "dc" => rg'[n] = rg[n]
-          /\ flags' = flags /\ opt' = opt]_vars
+    [][\A i \in Ids, g \in TrainGroups : Train(i, g) =>
+          /\ \A n \in Names : (~Frozen(O(n).c) /\ O(n).c # "dc") => Post(i).rg[n] = Want(g, Group(O(n).c))
+          /\ \A n \in Names : O(n).c = "dc" => Post(i).rg[n] = Pre(i).rg[n]
+          /\ Post(i).flags = Pre(i).flags /\ Post(i).opt = Pre(i).opt
+          /\ OthersSame(i)]_vars
 
 \* a model-level PIT switch drives exactly the objects it names, in EVERY layer, and nothing else
 SetterExact ==
-    [][\A f \in PitFlags, v \in BOOLEAN : SetFlag(f, v) =>
-          /\ (~Hetero => flags'[f] = v /\ \A h \in PitFlags \ {f} : flags'[h] = flags[h])
-          /\ \A n \in Names : rg'[n] = IF DimOf(O(n).c) = f /\ ~Frozen(O(n).c) THEN v ELSE rg[n]
-          /\ opt' = opt]_vars
+    [][\A i \in Ids, f \in PitFlags, v \in BOOLEAN : SetFlag(i, f, v) =>
+          /\ (~Hetero => Post(i).flags[f] = v /\ \A h \in PitFlags \ {f} : Post(i).flags[h] = Pre(i).flags[h])
+          /\ \A n \in Names : Post(i).rg[n] = IF DimOf(O(n).c) = f /\ ~Frozen(O(n).c) THEN v ELSE Pre(i).rg[n]
+          /\ Post(i).opt = Pre(i).opt
+          /\ OthersSame(i)]_vars
 
 \* a per-layer PIT switch drives the objects of that layer only
 LayerSetterExact ==
-    [][\A l \in Layers, f \in PitFlags, v \in BOOLEAN : LFlag(l, f, v) =>
-          /\ \A n \in Names : rg'[n] = IF DimOf(O(n).c) = f /\ ~Frozen(O(n).c) /\ l \in O(n).l THEN v ELSE rg[n]
-          /\ flags' = flags /\ opt' = opt]_vars
+    [][\A i \in Ids, l \in Layers, f \in PitFlags, v \in BOOLEAN : LFlag(i, l, f, v) =>
+          /\ \A n \in Names : Post(i).rg[n] = IF DimOf(O(n).c) = f /\ ~Frozen(O(n).c) /\ l \in O(n).l THEN v
+                                               ELSE Pre(i).rg[n]
+          /\ Post(i).flags = Pre(i).flags /\ Post(i).opt = Pre(i).opt
+          /\ OthersSame(i)]_vars
 
 \* SuperNet selection switches: model-level = every block, per-block = that block
 SelExact ==
-    [][/\ \A v \in BOOLEAN : Sel(v) =>
-             \A n \in Names : rg'[n] = IF O(n).c = "snalpha" THEN v ELSE rg[n]
-       /\ \A b \in Blocks, v \in BOOLEAN : LSel(b, v) =>
-             \A n \in Names : rg'[n] = IF O(n).c = "snalpha" /\ O(n).q = b THEN v ELSE rg[n]]_vars
+    [][/\ \A i \in Ids, v \in BOOLEAN : Sel(i, v) =>
+             /\ \A n \in Names : Post(i).rg[n] = IF O(n).c = "snalpha" THEN v ELSE Pre(i).rg[n]
+             /\ OthersSame(i)
+       /\ \A i \in Ids, b \in Blocks, v \in BOOLEAN : LSel(i, b, v) =>
+             /\ \A n \in Names : Post(i).rg[n] = IF O(n).c = "snalpha" /\ O(n).q = b THEN v ELSE Pre(i).rg[n]
+             /\ OthersSame(i)]_vars
 
 \* changing one sampling option: EVERY block gets the named option, and every OTHER option of EVERY
 \* block stays as it was in that block
 OthersKept ==
-    [][\A o \in AllOpt : \A v \in OptVals(o) : Upd(o, v) =>
+    [][\A i \in Ids, o \in AllOpt : \A v \in OptVals(o) : Upd(i, o, v) =>
           /\ \A k \in Blocks :
-                /\ SpecifiedSet(Kind, opt[k], opt'[k], UpdArg(o, v))
-                /\ UnspecifiedKept(Kind, opt[k], opt'[k], UpdArg(o, v))
-                /\ (o # "gumbel" => opt'[k].gumbel = opt[k].gumbel)
-                /\ (o # "disable" => opt'[k].disable = opt[k].disable)
-          /\ rg' = rg /\ flags' = flags]_vars
+                /\ SpecifiedSet(Kind, Pre(i).opt[k], Post(i).opt[k], UpdArg(o, v))
+                /\ UnspecifiedKept(Kind, Pre(i).opt[k], Post(i).opt[k], UpdArg(o, v))
+                /\ (o # "gumbel" => Post(i).opt[k].gumbel = Pre(i).opt[k].gumbel)
+                /\ (o # "disable" => Post(i).opt[k].disable = Pre(i).opt[k].disable)
+          /\ Post(i).rg = Pre(i).rg /\ Post(i).flags = Pre(i).flags
+          /\ OthersSame(i)]_vars
 
 \* an update addressed to one block leaves the other blocks alone
 LocalUpdate ==
-    [][\A b \in Blocks, o \in AllOpt : \A v \in OptVals(o) : LUpd(b, o, v) =>
-          /\ SpecifiedSet(Kind, opt[b], opt'[b], UpdArg(o, v))
-          /\ UnspecifiedKept(Kind, opt[b], opt'[b], UpdArg(o, v))
-          /\ \A k \in Blocks \ {b} : opt'[k] = opt[k]
-          /\ rg' = rg /\ flags' = flags]_vars
+    [][\A i \in Ids, b \in Blocks, o \in AllOpt : \A v \in OptVals(o) : LUpd(i, b, o, v) =>
+          /\ SpecifiedSet(Kind, Pre(i).opt[b], Post(i).opt[b], UpdArg(o, v))
+          /\ UnspecifiedKept(Kind, Pre(i).opt[b], Post(i).opt[b], UpdArg(o, v))
+          /\ \A k \in Blocks \ {b} : Post(i).opt[k] = Pre(i).opt[k]
+          /\ Post(i).rg = Pre(i).rg /\ Post(i).flags = Pre(i).flags
+          /\ OthersSame(i)]_vars
 
-ObserverNeutral == [][FwdBwd => UNCHANGED vars]_vars
+ObserverNeutral == [][(\E i \in Ids : FwdBwd(i)) => UNCHANGED <<objs>>]_vars
+
+\* the copy starts from the control state of the original, the original is not touched
+ForkExact == [][Fork => /\ Len(objs') = 2
+                        /\ objs'[1].rg = objs[1].rg /\ objs'[1].flags = objs[1].flags /\ objs'[1].opt = objs[1].opt
+                        /\ objs'[2].rg = objs[1].rg /\ objs'[2].flags = objs[1].flags /\ objs'[2].opt = objs[1].opt]_vars
 
 \* non-vacuity of the heterogeneous configurations: some reachable state has blocks / layers that differ
 \* (checked through the expected-to-fail config NasControlMC_*_homog.cfg)
 AlwaysHomogeneous ==
-    /\ \A j, k \in Blocks : opt[j].temp = opt[k].temp /\ opt[j].hard = opt[k].hard /\ opt[j].disable = opt[k].disable
-    /\ \A m, n \in Names : (O(m).c = O(n).c) => rg[m] = rg[n]
+    \A i \in Live :
+       /\ \A j, k \in Blocks : /\ objs[i].opt[j].temp = objs[i].opt[k].temp /\ objs[i].opt[j].hard = objs[i].opt[k].hard
+                               /\ objs[i].opt[j].disable = objs[i].opt[k].disable
+       /\ \A m, n \in Names : (O(m).c = O(n).c) => objs[i].rg[m] = objs[i].rg[n]
+\* non-vacuity of the forking configurations: original and copy do diverge
+NeverDiverge == Len(objs) = 2 => objs[1].rg = objs[2].rg /\ objs[1].opt = objs[2].opt
 =============================================================================
